@@ -328,6 +328,17 @@ func (w *idpWorld) putUser(name, email, cn string, groups []string, pw *string, 
 	if pw != nil {
 		m["password"] = *pw
 	}
+	// the record is the one the URL names; a name inside the body (another user's, the same, or an unknown one) is not
+	switch w.c.rng.Intn(6) {
+	case 0:
+		m["name"] = []string{"alice", "bob", "carol", "mallory"}[w.c.rng.Intn(4)]
+		w.c.count("c19-putuser-body-name", "other-or-same")
+	case 1:
+		m["name"] = name
+		w.c.count("c19-putuser-body-name", "same")
+	default:
+		w.c.count("c19-putuser-body-name", "absent")
+	}
 	b, _ := json.Marshal(m)
 	if pw != nil {
 		if w.everPw[name] == nil {
@@ -458,6 +469,13 @@ func (w *idpWorld) sso(entity string, valid bool, user, pw string, hasCred bool,
 	res := w.do(r, "sso")
 	w.checkSAML(res, entity)
 	w.checkAuthn(res, user, pw, hasCred, sid)
+	// "the assertion describes the user as stored at login": form credentials of <user> yield an assertion about <user>
+	if i := strings.Index(res, "/saml:"); i >= 0 && hasCred && sid == "" {
+		payload, _ := url.PathUnescape(strings.SplitN(res[i+6:], "/", 2)[0])
+		if got := strings.SplitN(payload, "|", 2)[0]; got != user {
+			w.orc = append(w.orc, fmt.Sprintf("key=assertion-describes-other-user step %d: logging in as %q produced an assertion whose uid is %q", w.n, user, got))
+		}
+	}
 	return res
 }
 
@@ -542,7 +560,14 @@ func (c *Ctx) genC19() {
 				w.putUser(u, u+"@example.com", strings.ToUpper(u[:1])+u[1:]+fmt.Sprint(c.rng.Intn(3)), [][]string{nil, {"staff"}, {"a", "b"}}[c.rng.Intn(3)], p, faults())
 			case 1:
 				u := users[c.rng.Intn(3)]
-				w.simple("getUser", "GET", "/users/"+u, []string{encStr(u)}, faults())
+				res := w.simple("getUser", "GET", "/users/"+u, []string{encStr(u)}, faults())
+				// the record stored under /users/<id> is the user <id>
+				if i := strings.Index(res, "/user:"); i >= 0 {
+					payload, _ := url.PathUnescape(strings.SplitN(res[i+6:], "/", 2)[0])
+					if got := strings.SplitN(payload, "|", 2)[0]; got != u {
+						w.orc = append(w.orc, fmt.Sprintf("key=user-record-identity step %d: GET /users/%s returns the record of a user named %q", w.n, u, got))
+					}
+				}
 			case 2:
 				u := users[c.rng.Intn(3)]
 				w.simple("deleteUser", "DELETE", "/users/"+u, []string{encStr(u)}, faults())
